@@ -3,6 +3,15 @@ import json, os
 VERIF = os.path.dirname(os.path.dirname(os.path.abspath(__file__)))
 STD_NOTE = "Trusted: Lean 4.33 kernel; axioms propext/Classical.choice/Quot.sound at most (audited by #print axioms on every run; no sorry/native_decide); "
 CHECKS = {
+ "C05": ("proof", "Lean 4: every transformation the ranking can select (identity or tabulated normalizer of any of the 230 groups) is proved to preserve all interatomic distances for every metric tensor of the crystal system, to map the space group onto itself and to be proper whenever the group is chiral (every_normalizer_is_admissible, from the kernel-checked tables); the selected index is always a candidate; wrapping moves atoms by lattice vectors (within the 1e-5 snap). Correspondence drives _find_wyckoff_ground_state directly; end-to-end crystals with an independent spglib run and a table-free handedness signature; directed search for selectable bad table entries.",
+         STD_NOTE + "tools/gen_tables.py; contract S1 on spglib's standardisation is monitored, not proved; float rounding in the 4x4 application.",
+         "Lean 4 proof (table theorems + isometry algebra) + correspondence", "DESIGN.md §6 C05"),
+ "C06": ("proof", "Lean 4: the ranking loop is proved equal to a plain fold (early exit irrelevant), total (never empty, survivors have equal dictionaries: MatIDError unreachable), invariant under atom reordering, a function of the SET of candidate dictionaries (chosen_dictionary_setwise) and therefore invariant under relabelling by any tabulated normalizer for all 230 groups (select_normalizer_invariant, using the kernel-checked fact that the tabulated letter permutations form groups); the id string depends only on the multiset of set strings. Correspondence on the real ranking and id string; end-to-end pairs of descriptions incl. origin shifts.",
+         STD_NOTE + "tools/gen_tables.py; contract S5 on spglib (equivalent descriptions standardise to normalizer-related structures) is sampled on pairs; completeness of the normalizer table is not provable without an independent reference; sha512 treated as a function.",
+         "Lean 4 proof (invariance of the ranking) + correspondence", "DESIGN.md §6 C06"),
+ "C07": ("proof", "Lean 4: the set assembly (np.unique + append loop) is proved to partition the atoms with one label per set, homogeneous under contract S2; orbit_transport: a normalizer maps G-invariant position sets onto G-invariant sets, and letters follow the tabulated permutation (from C14's kernel-checked tables: every tabulated position is one orbit). Correspondence on _get_wyckoff_sets; end-to-end: sets vs orbits under the operations an independent spglib run finds for the returned structure, letters vs spglib's assignment.",
+         STD_NOTE + "tools/gen_tables.py; contract S2 on spglib's orbits/letters is monitored end to end, not proved.",
+         "Lean 4 proof (partition + orbit transport) + correspondence", "DESIGN.md §6 C07"),
  "C08": ("proof", "Lean 4 model over Q of the parameter loop of _get_wyckoff_sets (reading rule and first tolerance translated from the AST): params_sound for every table/atoms/cell/tolerance (accepted parameters reproduce an atom and every e_k(W)+t_c is matched), repSolvable_all by kernel evaluation over all 1 731 positions with the rule the source uses now, wrap range, flag_iff. Correspondence: synthetic complete/displaced/incomplete orbits through the real _get_wyckoff_sets; end-to-end table-built crystals.",
          STD_NOTE + "translators gen_tables/gen_wyckoff_rule; completeness for exact orbits is covered by repSolvable_all + act_add_int + the correspondence on complete orbits, not by one end-to-end theorem; float evaluation away from tolerance boundaries.",
          "Lean 4 proof (model soundness + kernel-checked table predicate) + correspondence", "DESIGN.md §6 C08"),
